@@ -89,10 +89,25 @@ enum {
 #ifndef OBSERVE
 #define OBSERVE 0     /* 1: condition observes the resource guard via cmb_resourceguard_register, 2: via cmb_condition_subscribe */
 #endif
-#define MAXSTEP 6
+#define MAXSTEP 8
 #define MAXLED 24
 
 static const int scripts[4][MAXSTEP + 1] = { SCRIPT0, SCRIPT1, SCRIPT2, SCRIPT3 };
+/* optional concrete durations for the successive OP_HOLDs of a process (negative = symbolic): deep multi-step scenarios */
+#ifndef DUR0
+#define DUR0 {-1,-1,-1,-1,-1,-1,-1,-1,-1}
+#endif
+#ifndef DUR1
+#define DUR1 {-1,-1,-1,-1,-1,-1,-1,-1,-1}
+#endif
+#ifndef DUR2
+#define DUR2 {-1,-1,-1,-1,-1,-1,-1,-1,-1}
+#endif
+#ifndef DUR3
+#define DUR3 {-1,-1,-1,-1,-1,-1,-1,-1,-1}
+#endif
+static const double durs[4][MAXSTEP + 1] = { DUR0, DUR1, DUR2, DUR3 };
+static int nhold[4];
 
 /* ------------------------------------------------------------------ shadow state */
 enum { W_NONE = 0, W_HOLD, W_YIELD, W_WAITP, W_WAITE, W_ACQ, W_PACQ, W_BPUT, W_BGET, W_OPUT, W_OGET, W_QPUT, W_QGET, W_CWAIT };
@@ -162,10 +177,18 @@ static void ledger_add(int tgt, int kind, int64_t sig, double due, uint64_t hand
     nled++;
 }
 
+static void interrupt_clears(int id);
 static void cancel_timers_of(int id)
 {
     for (int k = 0; k < nled; k++) if (led[k].tgt == id && led[k].kind == L_TIMER && !led[k].delivered) led[k].cancelled = 1;
     P[id].ntimers = 0;
+}
+
+/* an interrupt / preemption withdraws the target's timers and any resume that is still on its way */
+static void interrupt_clears(int id)
+{
+    cancel_timers_of(id);
+    for (int k = 0; k < nled; k++) if (led[k].tgt == id && led[k].kind == L_RESUME && !led[k].delivered) led[k].cancelled = 1;
 }
 
 static void cancel_all_of(int id)
@@ -215,7 +238,7 @@ static void apply_delivery(int id, int hit)
         /* several preemptions of the same victim in one instant are delivered as one PREEMPTED signal */
         for (int k = 0; k < nled; k++) if (led[k].tgt == id && led[k].kind == L_PREEMPT && led[k].due == led[hit].due) led[k].delivered = 1;
     }
-    if (led[hit].kind == L_INTR || led[hit].kind == L_PREEMPT) cancel_timers_of(id);  /* documented: interrupt/preempt clears timers */
+    if (led[hit].kind == L_INTR || led[hit].kind == L_PREEMPT) interrupt_clears(id);  /* documented: interrupt/preempt clears timers */
     if (led[hit].kind == L_TIMER) {
         for (int t = 0; t < P[id].ntimers; t++) if (P[id].timers[t] == led[hit].handle) { P[id].timers[t] = P[id].timers[--P[id].ntimers]; break; }
     }
@@ -240,7 +263,7 @@ static void account_signal(int id, int64_t r, const char *unused)
             int clears = (led[cand[c]].kind == L_INTR || led[cand[c]].kind == L_PREEMPT);
             for (int k = 0; k < nled; k++) {
                 if (led[k].tgt != id || led[k].delivered || led[k].cancelled || k == cand[c]) continue;
-                if (clears && led[k].kind == L_TIMER) continue;
+                if (clears && (led[k].kind == L_TIMER || led[k].kind == L_RESUME)) continue;
                 n++;
             }
             if (n == actual) { hit = cand[c]; break; }
@@ -383,7 +406,9 @@ static void step(int id, int op)
     case OP_HOLD: case OP_HOLDZ: {
         double d = 0.0;
         if (op == OP_HOLD) {
-            if (CONCRETE_D) d = (double)sym_choice(3, "dsel");
+            double fixed = durs[id][nhold[id] < MAXSTEP ? nhold[id]++ : MAXSTEP];
+            if (fixed >= 0.0) d = fixed;
+            else if (CONCRETE_D) d = (double)sym_choice(3, "dsel");
             else { d = sym_f64("d"); sym_assume(d >= 0.0); sym_assume(d <= 8.0); }
         }
         P[id].waiting = W_HOLD;
@@ -542,7 +567,7 @@ static void step(int id, int op)
             for (int j = 0; j < NPROC; j++) if (j != id && (P[j].in_ppre || P[j].ppre_time == cmb_time()) && P[j].prio > P[id].prio) culprit = 1;
             if (r == CMB_PROCESS_PREEMPTED && !have && culprit && cmb_resourcepool_held_by_process(PL, me) == 0) {
                 /* mugged of a partial grab made during this call: nothing the harness could have seen from outside */
-                cancel_timers_of(id);
+                interrupt_clears(id);
             } else account_signal(id, r, "pool acquire");
             if (r == CMB_PROCESS_PREEMPTED && P[id].pool_held == 0) {
                 sym_assert(cmb_resourcepool_held_by_process(PL, me) == 0, "a preempted process holds nothing of the pool");
